@@ -59,6 +59,15 @@ impl<'a, T: DDNNFPtr<'a>> IteTable<'a, T> for LruIteTable<T> {
 
 impl<'a, T: DDNNFPtr<'a>> LruIteTable<T> {
     fn new() -> LruIteTable<T> {
+        #[cfg(feature = "verif_hooks")]
+        if let Some(pow) = crate::verif::LRU_ITE_CAPACITY
+            .with(|c| c.get())
+            .checked_sub(1)
+        {
+            return LruIteTable {
+                table: Lru::new(pow),
+            };
+        }
         LruIteTable {
             table: Lru::new(INITIAL_CAPACITY),
         }
